@@ -9,6 +9,7 @@ RULE = ('lists of well-formed messages (1..300 records so that files span many b
         'fields) x {latin_1, cp500, cp037, cp1252} x {VBS, 1014} x {packaged, generated} configuration; interleavings of 2..4 '
         'reader/writer instances on different files, each instance compared with its solo run, class-level attributes of '
         'VbsReader read before and after; non-trivial = distinct case with at least 2 records')
+CODEC_ALIASES = True     # one implementation run in three is given an alias spelling of the codec name (worker.for_impl)
 EXHAUSTIVE = {}
 ASSUMPTIONS = ['interleaving is at method-call granularity in one thread (cardutil has no threads or locks)']
 
